@@ -76,6 +76,15 @@ def deep_pumps(ctx):
     out.append("".join("  " * i + "-\n" for i in range(500)))
     out.append("".join(" " * i + "> a\n" for i in range(4)) + "> " * 1200 + "x\n")
     out.append("[a(b)]" * 3000)
+    # sibling alternation: blocks that interrupt each other without blank lines (handlers that parse the interrupting
+    # block from inside the interrupted one recurse once per alternation, with no nesting in the result)
+    alt = ["> a", "- b", "1. c", "# h", "---", "```", "    code", "<div>", "| a | b |", ": d", "[x]: u", "text", "* * *", "+ d", "a\n===", ">! s", "  - e", "   > f",
+           "```{note}", ".. note::", "$$", "[^1]: n", "*[A]: t", "- [ ] k"]
+    for a, b in itertools.permutations(alt, 2):
+        out.append((a + "\n" + b + "\n") * 500)
+    for _ in range(60):
+        u = "".join(ctx.rng.choice(alt) + "\n" for _ in range(3))
+        out.append(u * 400)
     out.append("[^1]: x\n\n" + "[^1]" * 3000)
     return out
 
